@@ -2,7 +2,7 @@ import sys, importlib, time, json
 sys.path.insert(0, '/verif')
 from pyvc.source import SourceIndex
 from pyvc.contracts import Registry
-from pyvc.verifier import Verifier, load_specs
+from pyvc.verifier import Verifier, load_specs, load_enums
 from pyvc.solve import discharge
 
 def run(pid, only=None, timeout=10000):
@@ -11,6 +11,7 @@ def run(pid, only=None, timeout=10000):
     load_specs(reg, f'/verif/specs/{pid.lower()}.py')
     mod = importlib.import_module(f'contracts.{pid.lower()}')
     mod.register(reg)
+    load_enums(reg, src)
     v = Verifier(src, reg, pid)
     for key, c in reg.contracts.items():
         if c.assumed or not c.verify: continue
@@ -22,7 +23,7 @@ def run(pid, only=None, timeout=10000):
     t0=time.time()
     res = discharge(v.obligations, v.global_axioms, timeout_ms=timeout)
     for ob, r in zip(v.obligations, res):
-        print(r['status'], r['backend'], r['time'], ob.name, '|', ob.detail[:70], r.get('model',''), r.get('reason',''))
+        print(r['status'], r['backend'], r['time'], ob.name, '|', ob.detail[:70], r.get('model',''), r.get('reason',''), r.get('cvc5',''))
     print('solve', time.time()-t0)
     return v, res
 
